@@ -1,158 +1,15 @@
 /-
-Helper lemmas for C02: every class of every state reachable without the F-C02-1 trigger is
-`Tidy`.  No property statements.
+Helper lemmas for C02: every class of every reachable state is `Tidy` (since fix bb96d233; on
+the pinned tree only without an unsuspension of a suspended child).  No property statements.
 -/
 import KrillModel.Ca.LemmasTidy
+import KrillModel.Ca.LemmasReach
 namespace KM.CaK
 open KM.Res KM.AMap
 
-/-! ## Certificates of a class after a class-local chunk -/
-
-def certsFold (cs : ChildCerts) : List Ev → ChildCerts
-  | [] => cs
-  | .childCerts _ u :: t => certsFold (cs.applyUpd u) t
-  | _ :: t => certsFold cs t
-
-theorem applyEvs_certs {rc rc' : Rc} {evs : List Ev} (h : rc.applyEvs evs = some rc') :
-    rc'.certs = certsFold rc.certs evs := by
-  induction evs generalizing rc with
-  | nil => simp only [Rc.applyEvs, Option.some.injEq] at h; subst h; rfl
-  | cons e es ih =>
-    simp only [Rc.applyEvs] at h
-    cases hae : rc.applyEv e with
-    | none => simp [hae] at h
-    | some rc1 =>
-      simp only [hae, Option.bind_some] at h
-      rw [ih h]
-      cases e with
-      | key r ke =>
-        simp only [Rc.applyEv] at hae
-        cases hk : rc.keys.apply ke with
-        | none => simp [hk] at hae
-        | some ks => simp only [hk, Option.map_some, Option.some.injEq] at hae; subst hae; rfl
-      | products r u => simp only [Rc.applyEv, Option.some.injEq] at hae; subst hae; rfl
-      | childCerts r u => simp only [Rc.applyEv, Option.some.injEq] at hae; subst hae; rfl
-      | _ => simp [Rc.applyEv] at hae
-
-def Ev.isCerts : Ev → Bool
-  | .childCerts .. => true
-  | _ => false
-
-theorem certsFold_noCerts (cs : ChildCerts) (evs : List Ev) (h : ∀ e ∈ evs, e.isCerts = false) :
-    certsFold cs evs = cs := by
-  induction evs with
-  | nil => rfl
-  | cons e es ih =>
-    have he := h e (List.mem_cons_self ..)
-    cases e <;> simp [Ev.isCerts] at he <;> simp only [certsFold] <;>
-      exact ih (fun e' he' => h e' (List.mem_cons_of_mem _ he'))
-
-theorem certsFold_append (cs : ChildCerts) (a b : List Ev) :
-    certsFold cs (a ++ b) = certsFold (certsFold cs a) b := by
-  induction a generalizing cs with
-  | nil => rfl
-  | cons e es ih => cases e <;> simp only [List.cons_append, certsFold] <;> exact ih _
-
-theorem renewal_noCerts (r : Rcn) (rc : Rc) (k : PKind) : ∀ e ∈ renewal r rc k, e.isCerts = false := by
-  intro e he
-  obtain ⟨u, rfl⟩ := renewal_products r rc k e he
-  rfl
-
-theorem certsFold_optional (cs : ChildCerts) (r : Rcn) (upd : CertUpd) :
-    certsFold cs (if upd.isEmpty = true then [] else [Ev.childCerts r upd]) = cs.applyUpd upd := by
-  by_cases h : upd.isEmpty = true
-  · simp only [h, if_true, certsFold]; exact (isEmpty_applyUpd h cs).symm
-  · simp only [h, Bool.false_eq_true, if_false, certsFold]
-
-/-- Certificates after the activation chunk. -/
-theorem activateClass_certs {na : Int} {r : Rcn} {rc rc' : Rc} {evs : List Ev}
-    (h : activateClass r rc na = .ok evs) (happ : rc.applyEvs evs = some rc') :
-    rc'.certs = rc.certs ∨
-      ∃ n upd, rc.keys.newKey = some n ∧ rc.certs.activateKey n.cert na = .ok upd ∧
-        rc'.certs = rc.certs.applyUpd upd := by
-  rw [applyEvs_certs happ]
-  unfold activateClass at h
-  cases hn : rc.keys.newKey with
-  | none => simp only [hn, Except.ok.injEq] at h; subst h; exact Or.inl rfl
-  | some n =>
-    simp only [hn] at h
-    cases ha : rc.keys.keyrollActivate with
-    | error e => simp [ha] at h
-    | ok kevs =>
-      simp only [ha] at h
-      cases hac : rc.certs.activateKey n.cert na with
-      | error e => simp [hac] at h
-      | ok upd =>
-        simp only [hac, Except.ok.injEq] at h; subst h
-        refine Or.inr ⟨n, upd, rfl, hac, ?_⟩
-        have hk : ∀ e ∈ kevs.map (Ev.key r), e.isCerts = false := by
-          intro e he; obtain ⟨ke, _, rfl⟩ := List.mem_map.mp he; rfl
-        simp only [certsFold_append, certsFold_noCerts _ _ hk, certsFold_noCerts _ _ (renewal_noCerts r rc _),
-          certsFold_optional]
-
-theorem initClass_certs {fresh : AMap Rcn KeyId} {r : Rcn} {rc rc' : Rc} {evs : List Ev}
-    (h : initClass fresh r rc = .ok evs) (happ : rc.applyEvs evs = some rc') : rc'.certs = rc.certs := by
-  rw [applyEvs_certs happ]
-  apply certsFold_noCerts
-  intro e he
-  have hon := (initClass_ready fresh r rc evs h).1 e he
-  unfold initClass at h
-  cases hk : rc.keys with
-  | active c =>
-    simp only [hk] at h
-    cases hf : get fresh r with
-    | none => simp [hf] at h
-    | some k =>
-      simp only [hf] at h
-      split at h
-      · cases h
-      · simp only [Except.ok.injEq] at h; subst h
-        obtain ⟨ke, _, rfl⟩ := List.mem_map.mp he; rfl
-  | pending _ => simp only [hk, Except.ok.injEq] at h; subst h; cases he
-  | rollPending _ _ => simp only [hk, Except.ok.injEq] at h; subst h; cases he
-  | rollNew _ _ => simp only [hk, Except.ok.injEq] at h; subst h; cases he
-  | rollOld _ _ => simp only [hk, Except.ok.injEq] at h; subst h; cases he
-
-/-- Certificates of the class after `UpdateRcvdCert`. -/
-theorem rcvd_certs {s : Ca} {rcn : Rcn} {ki : KeyId} {cert : Cert} {na : Int} {prods : List ProdUpd}
-    {evs : List Ev} {rc rc' : Rc} (hg : get s.classes rcn = some rc)
-    (h : s.process (.updateRcvdCert rcn ki cert na prods) = .ok evs) (happ : rc.applyEvs evs = some rc') :
-    rc'.certs = rc.certs ∨ ∃ upd, rc.certs.shrinkOverclaiming cert na = .ok upd ∧ rc'.certs = rc.certs.applyUpd upd := by
-  rw [applyEvs_certs happ]
-  simp only [Ca.process, hg] at h
-  have hprods : ∀ e ∈ (prods.filter (!·.isEmpty)).map (Ev.products rcn), e.isCerts = false := by
-    intro e he; obtain ⟨u, _, rfl⟩ := List.mem_map.mp he; rfl
-  cases hr : rc.keys.route ki with
-  | error e => simp [hr] at h
-  | ok route =>
-    simp only [hr] at h
-    cases route with
-    | toActive =>
-      simp only [Except.ok.injEq] at h; subst h
-      left
-      apply certsFold_noCerts
-      intro e he
-      rcases List.mem_cons.mp he with rfl | he
-      · rfl
-      · exact hprods e he
-    | toNew => simp only [Except.ok.injEq] at h; subst h; left; rfl
-    | newCert => simp only [Except.ok.injEq] at h; subst h; left; rfl
-    | current c =>
-      simp only [Rc.rcvdCertCurrent] at h
-      split at h
-      · simp only [Except.ok.injEq] at h; subst h; left; rfl
-      · cases hsh : rc.certs.shrinkOverclaiming cert na with
-        | error e => simp [hsh] at h
-        | ok upd =>
-          simp only [hsh, Except.ok.injEq] at h; subst h
-          right
-          refine ⟨upd, rfl, ?_⟩
-          simp only [List.cons_append, certsFold, certsFold_append, certsFold_optional,
-            certsFold_noCerts _ _ hprods]
-
 /-! ## Single events -/
 
-theorem tidy_step {s s' : Ca} {e : Ev} (hnd : (keys s.classes).Nodup) (hadd : e.addsNothing = true)
+theorem tidy_step {s s' : Ca} {e : Ev} (hnd : (keys s.classes).Nodup)
     (hP : AllCls Tidy s) (ha : s.apply e = some s') : AllCls Tidy s' := by
   have upd : ∀ (r : Rcn) (rc' : Rc), Tidy rc' → ∀ (ch : AMap Handle Child),
       AllCls Tidy { s with classes := set s.classes r rc', children := ch } := by
@@ -207,9 +64,8 @@ theorem tidy_step {s s' : Ca} {e : Ev} (hnd : (keys s.classes).Nodup) (hadd : e.
       simp only [hw, Option.some.injEq] at ha; subst ha
       obtain ⟨rc, rc', hg, hf, rfl⟩ := Ca.withClass_some hw
       simp only [Option.some.injEq] at hf; subst hf
-      simp only [Ev.addsNothing, Bool.and_eq_true, List.isEmpty_iff] at hadd
       refine upd r { rc with certs := rc.certs.applyUpd u } ?_ _
-      exact (tidyC_applyUpd (hP r rc hg) u hadd.2 (by intro p hp; rw [hadd.1] at hp; cases hp) : TidyC _)
+      exact (tidyC_applyUpd (hP r rc hg) u : TidyC _)
   | childKeyRevoked ch r k =>
     simp only [Ca.apply] at ha
     cases hw : s.withClass r (fun rc => some { rc with certs := rc.certs.removeRevoked k }) with
@@ -237,8 +93,7 @@ theorem tidy_step {s s' : Ca} {e : Ev} (hnd : (keys s.classes).Nodup) (hadd : e.
   | repoUpdated => simp only [Ca.apply, Option.some.injEq] at ha; subst ha; exact hP
   | other => simp only [Ca.apply, Option.some.injEq] at ha; subst ha; exact hP
 
-theorem tidy_applyAll_plain {s s' : Ca} {evs : List Ev} (hnd : (keys s.classes).Nodup)
-    (h : ∀ e ∈ evs, e.addsNothing = true) (hP : AllCls Tidy s)
+theorem tidy_applyAll {s s' : Ca} {evs : List Ev} (hnd : (keys s.classes).Nodup) (hP : AllCls Tidy s)
     (hs : s.applyAll evs = some s') : AllCls Tidy s' := by
   induction evs generalizing s with
   | nil => simp only [Ca.applyAll, Option.some.injEq] at hs; subst hs; exact hP
@@ -248,43 +103,12 @@ theorem tidy_applyAll_plain {s s' : Ca} {evs : List Ev} (hnd : (keys s.classes).
     | none => simp [ha] at hs
     | some s1 =>
       simp only [ha, Option.bind_some] at hs
-      exact ih (apply_nodup hnd ha) (fun e' he' => h e' (List.mem_cons_of_mem _ he'))
-        (tidy_step hnd (h e (List.mem_cons_self ..)) hP ha) hs
+      exact ih (apply_nodup hnd ha) (tidy_step hnd hP ha) hs
 
-/-! ## All quiet commands -/
+/-! ## All commands -/
 
-theorem keyEv_addsNothing (r : Rcn) (ke : KeyEv) : (Ev.key r ke).addsNothing = true := rfl
-
-theorem forClasses_keyOnly {f : Rcn → Rc → Except Err (List Ev)}
-    (hf : ∀ r rc evs, f r rc = .ok evs → ∀ e ∈ evs, e.addsNothing = true)
-    {l : List (Rcn × Rc)} {evs : List Ev} (h : forClasses f l = .ok evs) : ∀ e ∈ evs, e.addsNothing = true := by
-  intro e he
-  obtain ⟨p, _, a, ha, hea⟩ := mem_forClasses h he
-  exact hf p.1 p.2 a ha e hea
-
-theorem initClass_addsNothing (fresh : AMap Rcn KeyId) (r : Rcn) (rc : Rc) (evs : List Ev)
-    (h : initClass fresh r rc = .ok evs) : ∀ e ∈ evs, e.addsNothing = true := by
-  intro e he
-  unfold initClass at h
-  cases hk : rc.keys with
-  | active c =>
-    simp only [hk] at h
-    cases hf : get fresh r with
-    | none => simp [hf] at h
-    | some k =>
-      simp only [hf] at h
-      split at h
-      · cases h
-      · simp only [Except.ok.injEq] at h; subst h
-        obtain ⟨ke, _, rfl⟩ := List.mem_map.mp he; rfl
-  | pending _ => simp only [hk, Except.ok.injEq] at h; subst h; cases he
-  | rollPending _ _ => simp only [hk, Except.ok.injEq] at h; subst h; cases he
-  | rollNew _ _ => simp only [hk, Except.ok.injEq] at h; subst h; cases he
-  | rollOld _ _ => simp only [hk, Except.ok.injEq] at h; subst h; cases he
-
-/-- A stored quiet command keeps every class tidy. -/
-theorem tidy_next {s : Sys} (hinv : Inv s) (hP : AllCls Tidy s.ca) (c : Cmd) (hq : c.quiet s.ca = true) :
-    AllCls Tidy (s.next c).ca := by
+/-- A command keeps every class tidy. -/
+theorem tidy_next {s : Sys} (hinv : Inv s) (hP : AllCls Tidy s.ca) (c : Cmd) : AllCls Tidy (s.next c).ca := by
   unfold Sys.next
   cases hex : s.exec c with
   | refused e => exact hP
@@ -292,272 +116,14 @@ theorem tidy_next {s : Sys} (hinv : Inv s) (hP : AllCls Tidy s.ca) (c : Cmd) (hq
   | listenerError e => exact hP
   | stored evs s' =>
     simp only
-    obtain ⟨hp, hr⟩ := exec_stored_iff.mp hex
+    obtain ⟨_, hr⟩ := exec_stored_iff.mp hex
     obtain ⟨ca', o'⟩ := s'
     obtain ⟨hs, _⟩ := runEvs_some_iff.mp hr
-    simp only
-    have hnd := hinv.core.nodup
-    have plain : (∀ e ∈ evs, e.addsNothing = true) → AllCls Tidy ca' :=
-      fun h => tidy_applyAll_plain hnd h hP hs
-    cases c with
-    | childAdd ch res =>
-      simp only [Ca.process] at hp
-      split at hp
-      · cases hp
-      · split at hp
-        · cases hp
-        · split at hp
-          · cases hp
-          · simp only [Except.ok.injEq] at hp; subst hp
-            exact plain (by intro e he; simp at he; subst he; rfl)
-    | childUpdateResources ch res =>
-      simp only [Ca.process] at hp
-      split at hp
-      · cases hp
-      · cases hg : get s.ca.children ch with
-        | none => simp [hg] at hp
-        | some cd =>
-          simp only [hg] at hp
-          split at hp
-          · simp only [Except.ok.injEq] at hp; subst hp; exact plain (by intro e he; cases he)
-          · simp only [Except.ok.injEq] at hp; subst hp
-            exact plain (by intro e he; simp at he; subst he; rfl)
-    | childMapping ch n m =>
-      simp only [Ca.process] at hp
-      cases hg : get s.ca.children ch with
-      | none => simp [hg] at hp
-      | some cd =>
-        simp only [hg] at hp
-        split at hp
-        · cases hp
-        · simp only [Except.ok.injEq] at hp; subst hp
-          exact plain (by intro e he; simp at he; subst he; rfl)
-    | childCertify ch childRcn ki limit na =>
-      simp only [Ca.process] at hp
-      cases hg : get s.ca.children ch with
-      | none => simp [hg] at hp
-      | some cd =>
-        simp only [hg] at hp
-        simp only [Cmd.quiet, hg] at hq
-        unfold Ca.childCertifyEvents at hp
-        cases hgc : get s.ca.classes (cd.nameInParent childRcn) with
-        | none => simp [hgc] at hp
-        | some rc =>
-          simp only [hgc] at hp hq
-          cases hi : issueCert rc.keys cd.res limit na with
-          | error e => simp [hi] at hp
-          | ok cc =>
-            simp only [hi, Except.ok.injEq] at hp; subst hp
-            -- run the two events
-            simp only [Ca.applyAll, Ca.apply, Ca.withChild, hg, Option.bind_some, Ca.withClass, hgc,
-              List.foldl_nil, Option.some.injEq] at hs
-            subst hs
-            intro r2 rc2 hg2
-            simp only [get_set] at hg2
-            by_cases h : cd.nameInParent childRcn = r2
-            · simp only [h, if_true, Option.some.injEq] at hg2; subst hg2
-              show TidyC _
-              apply tidyC_applyUpd (hP _ rc hgc)
-              · rfl
-              · intro p hp'
-                simp only [List.mem_singleton] at hp'; subst hp'
-                simpa using hq
-            · simp only [h, if_false] at hg2; exact hP r2 rc2 hg2
-    | childRevokeKey ch childRcn ki =>
-      simp only [Ca.process] at hp
-      split at hp
-      · simp only [Except.ok.injEq] at hp; subst hp; exact plain (by intro e he; cases he)
-      · cases hg : get s.ca.children ch with
-        | none => simp [hg] at hp
-        | some cd =>
-          simp only [hg] at hp
-          split at hp
-          · cases hp
-          · simp only [Except.ok.injEq] at hp; subst hp
-            exact plain (by
-              intro e he
-              simp only [List.mem_cons, List.not_mem_nil, or_false] at he
-              rcases he with rfl | rfl <;> rfl)
-    | childRemove ch =>
-      simp only [Ca.process] at hp
-      cases hg : get s.ca.children ch with
-      | none => simp [hg] at hp
-      | some cd =>
-        simp only [hg, Except.ok.injEq] at hp; subst hp
-        refine plain ?_
-        intro e he
-        rcases List.mem_append.mp he with he | he
-        · simp only [removeEventsFor, List.mem_filterMap] at he
-          obtain ⟨p, _, hsome⟩ := he
-          split at hsome
-          · cases hsome
-          · simp only [Option.some.injEq] at hsome; subst hsome; rfl
-        · simp at he; subst he; rfl
-    | childSuspend ch =>
-      simp only [Ca.process] at hp
-      cases hg : get s.ca.children ch with
-      | none => simp [hg] at hp
-      | some cd =>
-        simp only [hg] at hp
-        split at hp
-        · simp only [Except.ok.injEq] at hp; subst hp; exact plain (by intro e he; cases he)
-        · split at hp
-          · simp only [Except.ok.injEq] at hp; subst hp; exact plain (by intro e he; cases he)
-          · simp only [Except.ok.injEq] at hp; subst hp
-            refine plain ?_
-            intro e he
-            rcases List.mem_append.mp he with he | he
-            · simp only [suspendEventsFor, List.mem_filterMap] at he
-              obtain ⟨p, _, hsome⟩ := he
-              split at hsome
-              · cases hsome
-              · simp only [Option.some.injEq] at hsome; subst hsome; rfl
-            · simp at he; subst he; rfl
-    | childUnsuspend ch now1d na =>
-      simp only [Ca.process] at hp
-      cases hg : get s.ca.children ch with
-      | none => simp [hg] at hp
-      | some cd =>
-        simp only [hg] at hp
-        simp only [Cmd.quiet, hg] at hq
-        simp only [hq, if_true, Except.ok.injEq] at hp; subst hp
-        exact plain (by intro e he; cases he)
-    | addParent p =>
-      simp only [Ca.process] at hp
-      split at hp
-      · cases hp
-      · simp only [Except.ok.injEq] at hp; subst hp
-        exact plain (by intro e he; simp at he; subst he; rfl)
-    | removeParent p =>
-      simp only [Ca.process] at hp
-      split at hp
-      · cases hp
-      · simp only [Except.ok.injEq] at hp; subst hp
-        refine plain ?_
-        intro e he
-        rcases List.mem_append.mp he with he | he
-        · obtain ⟨q, _, rfl⟩ := List.mem_map.mp he; rfl
-        · simp at he; subst he; rfl
-    | updateEntitlements p ents now fresh =>
-      simp only [Ca.process] at hp
-      cases hl : entitlementLoop s.ca p now ents s.ca.nextClass fresh with
-      | error e => simp [hl] at hp
-      | ok evs1 =>
-        simp only [hl, Except.ok.injEq] at hp; subst hp
-        refine plain ?_
-        intro e he
-        rcases List.mem_append.mp he with he | he
-        · obtain ⟨q, _, rfl⟩ := List.mem_map.mp he; rfl
-        · exact (entitlementLoop_plain hl e he).2
-    | updateRcvdCert rcn ki cert na prods =>
-      have hp0 := hp
-      simp only [Ca.process] at hp
-      cases hg : get s.ca.classes rcn with
-      | none => simp [hg] at hp
-      | some rc =>
-        have hon : ∀ e ∈ evs, e.onClass rcn = true := by
-          have hrs := readySeq_updateRcvdCert hp0
-          -- every event of the command is class-local (read off the process definition)
-          simp only [hg] at hp
-          cases hr : rc.keys.route ki with
-          | error e => simp [hr] at hp
-          | ok route =>
-            simp only [hr] at hp
-            have hprods : ∀ e ∈ (prods.filter (!·.isEmpty)).map (Ev.products rcn), e.onClass rcn = true := by
-              intro e he; obtain ⟨u, _, rfl⟩ := List.mem_map.mp he; simp [Ev.onClass]
-            cases route with
-            | toActive =>
-              simp only [Except.ok.injEq] at hp; subst hp
-              intro e he
-              rcases List.mem_cons.mp he with rfl | he
-              · simp [Ev.onClass]
-              · exact hprods e he
-            | toNew => simp only [Except.ok.injEq] at hp; subst hp; intro e he; simp at he; subst he; simp [Ev.onClass]
-            | newCert => simp only [Except.ok.injEq] at hp; subst hp; intro e he; simp at he; subst he; simp [Ev.onClass]
-            | current c =>
-              simp only [Rc.rcvdCertCurrent] at hp
-              split at hp
-              · simp only [Except.ok.injEq] at hp; subst hp; intro e he; simp at he; subst he; simp [Ev.onClass]
-              · cases hsh : rc.certs.shrinkOverclaiming cert na with
-                | error e => simp [hsh] at hp
-                | ok upd =>
-                  simp only [hsh, Except.ok.injEq] at hp; subst hp
-                  intro e he
-                  rcases List.mem_cons.mp he with rfl | he
-                  · simp [Ev.onClass]
-                  · rcases List.mem_append.mp he with he | he
-                    · split at he
-                      · cases he
-                      · simp only [List.mem_singleton] at he; subst he; simp [Ev.onClass]
-                    · exact hprods e he
-        refine allCls_chunk Tidy hon hg hP ?_ hs
-        intro rc' happ
-        rcases rcvd_certs hg hp0 happ with h | ⟨upd, hsh, h⟩
-        · show TidyC rc'.certs; rw [h]; exact hP rcn rc hg
-        · show TidyC rc'.certs; rw [h]; exact tidyC_shrink (hP rcn rc hg) hsh
-    | dropClass rcn =>
-      simp only [Ca.process] at hp
-      cases hg : get s.ca.classes rcn with
-      | none => simp [hg] at hp
-      | some rc =>
-        simp only [hg, Except.ok.injEq] at hp; subst hp
-        exact plain (by intro e he; simp at he; subst he; rfl)
-    | keyrollInit fresh =>
-      simp only [Ca.process] at hp
-      split at hp
-      · simp only [Except.ok.injEq] at hp; subst hp; exact plain (by intro e he; cases he)
-      · split at hp
-        · cases hp
-        · rw [keyrollInitLoop_eq] at hp
-          exact plain (forClasses_keyOnly (initClass_addsNothing fresh) hp)
-    | keyrollActivate na =>
-      simp only [Ca.process] at hp
-      rw [activateLoop_eq] at hp
-      refine forClasses_pres Tidy ?_ hnd (classes_get_of_mem hnd) hP hp hs
-      intro r rc evs h
-      refine ⟨(activateClass_ready na r rc evs h).1, ?_⟩
-      intro hT rc' happ
-      rcases activateClass_certs h happ with h1 | ⟨n, upd, _, hac, h1⟩
-      · show TidyC rc'.certs; rw [h1]; exact hT
-      · show TidyC rc'.certs; rw [h1]; exact tidyC_activate hT hac
-    | keyrollFinish rcn =>
-      simp only [Ca.process] at hp
-      cases hg : get s.ca.classes rcn with
-      | none => simp [hg] at hp
-      | some rc =>
-        simp only [hg] at hp
-        cases hf : rc.keys.keyrollFinish with
-        | error e => simp [hf] at hp
-        | ok e =>
-          simp only [hf, Except.ok.injEq] at hp; subst hp
-          exact plain (by intro e' he; simp at he; subst he; rfl)
-    | repoUpdate fresh =>
-      simp only [Ca.process] at hp
-      split at hp
-      · simp only [Except.ok.injEq] at hp; subst hp
-        exact plain (by intro e he; simp at he; subst he; rfl)
-      · split at hp
-        · cases hp
-        · cases hl : keyrollInitLoop fresh s.ca.classes with
-          | error e => simp [hl] at hp
-          | ok evs1 =>
-            simp only [hl, Except.ok.injEq] at hp; subst hp
-            rw [keyrollInitLoop_eq] at hl
-            refine plain ?_
-            intro e he
-            rcases List.mem_append.mp he with he | he
-            · exact forClasses_keyOnly (initClass_addsNothing fresh) hl e he
-            · simp at he; subst he; rfl
-    | config upds =>
-      simp only [Ca.process, Except.ok.injEq] at hp; subst hp
-      refine plain ?_
-      intro e he
-      obtain ⟨u, _, rfl⟩ := List.mem_map.mp he
-      rfl
+    exact tidy_applyAll hinv.core.nodup hP hs
 
-theorem reachableQ_tidy {s : Sys} (h : ReachableQ s) : AllCls Tidy s.ca := by
+theorem reachable_tidy {s : Sys} (h : Reachable s) : AllCls Tidy s.ca := by
   induction h with
   | init => intro r rc hg; simp at hg
-  | step c hr hq ih => exact tidy_next (reachable_inv hr.reachable) ih c hq
+  | step c hr ih => exact tidy_next (reachable_inv hr) ih c
 
 end KM.CaK
